@@ -922,8 +922,13 @@ class ShollNear(Suite):
                             "getn": {str(k): {"rs": [float(v) for v in shs._get_rs(k)], "counts": [int(v) for v in shs.get(steps=k)]} for k in (1, 3, 7, 15)}}
             lstep = case.get("legacy_step", 0.5)
             shl = Sholl(t, step=lstep)
-            res["legacy"] = {"step": lstep, "rs": [float(v) for v in shl._get_rs(20)], "counts": [int(v) for v in shl.get()],
-                             "counts_list": [int(v) for v in shl.get(steps=rs)]}
+            def counts(f):            # no radius below the tree's extent: numpy's AxisError (`np.count_nonzero([], axis=1)`), as the generated `get`
+                try:
+                    return [int(v) for v in f()]
+                except Exception:  # noqa: BLE001 - compared with the generated definition
+                    return "E"
+            res["legacy"] = {"step": lstep, "rs": [float(v) for v in shl._get_rs(20)], "counts": counts(lambda: shl.get()),
+                             "counts_list": counts(lambda: shl.get(steps=rs))}
             try:
                 Sholl(gen.make_tree({"n": 1, "pids": [-1], "types": [1], "xyz": [[1.0, 2.0, 3.0]], "r": [1.0]}))
                 res["single"] = "ok"
@@ -972,8 +977,9 @@ class ShollNear(Suite):
         lg = res["legacy"]
         gl = f"{g} step={_q(lg['step'])}"
         out += [(f"{gl} what=init", f"{_q(res['obj']['rmax'])} {_qrows(res['obj']['rs'])} w=1"),
-                (f"{gl} what=rsn n=20", _qs(lg["rs"])), (f"{gl} what=getn n=20", gen.ints(lg["counts"])),
-                (f"{gl} what=get r={rq}", gen.ints(lg["counts_list"])), (f"{gl} what=rs r={rq}", _qs(lg["rs"]))]
+                (f"{gl} what=rsn n=20", _qs(lg["rs"])), (f"{gl} what=getn n=20", lg["counts"] if lg["counts"] == "E" else gen.ints(lg["counts"])),
+                (f"{gl} what=get r={rq}", lg["counts_list"] if lg["counts_list"] == "E" else gen.ints(lg["counts_list"])),
+                (f"{gl} what=rs r={rq}", _qs(lg["rs"]))]
         return out
 
     def oracle(self, case, res):
